@@ -199,10 +199,100 @@ _DYNWORDS = {"crescendo": "IncreasingLoudnessDirection", "diminuendo": "Decreasi
 _CDIR = {"loud": "ConstantLoudnessDirection", "tempo": "ConstantTempoDirection", "artic": "ConstantArticulationDirection"}
 
 
+# ---------------------------------------------------------------------------------------------
+# number forms: the same score with the numbers of its construction calls given as numpy scalars
+
+NUMBER_FAMILIES = ("voice", "staff", "time", "pitch", "sym", "measure", "ts", "ks", "clef", "fing", "tempo", "ending",
+                   "divs", "group")
+NUMBER_TYPES = ("int64", "int32")
+
+
+def _np_type(tname):
+    import numpy as np
+
+    if tname not in NUMBER_TYPES:
+        raise ValueError("unknown number type %r" % (tname,))
+    return getattr(np, tname)
+
+
+def number_form(spec, tname, fams):
+    """(copy of the part spec in which every Python int of the number families `fams` is the numpy scalar
+    numpy.<tname> of the same value, number of values replaced).  The families are the numeric arguments of the
+    public construction API: voice / staff (notes, rests, grace notes, clefs, directions) / time (start and end given
+    to Part.add) / pitch (octave, alter) / sym (dots and tuplet ratio of a symbolic duration, actual and normal notes of
+    a Tuplet) / measure (number) / ts (beats, beat type) / ks (fifths) / clef (line, octave change) / fing (fingering) /
+    tempo (bpm) / ending (number) / divs (quarter durations and their times: Part(quarter_duration=),
+    set_quarter_duration).  The values are the same numbers, so every reference value of the spec is unchanged."""
+    import copy
+
+    T = _np_type(tname)
+    unknown = set(fams) - set(NUMBER_FAMILIES)
+    if unknown:
+        raise ValueError("unknown number families %r" % (sorted(unknown),))
+    spec = copy.deepcopy(spec)
+    cnt = [0]
+
+    def c(d, k):
+        v = d.get(k)
+        if isinstance(v, int) and not isinstance(v, bool):
+            d[k] = T(v)
+            cnt[0] += 1
+
+    for o in spec["objs"]:
+        k = o["k"]
+        if "voice" in fams and k in GENERIC:
+            c(o, "voice")
+        if "staff" in fams:
+            c(o, "staff")
+        if "time" in fams:
+            c(o, "s")
+            c(o, "e")
+        if "pitch" in fams and k in GENERIC:
+            c(o, "oct")
+            c(o, "alter")
+        if "sym" in fams:
+            if isinstance(o.get("sym"), dict):
+                for kk in ("dots", "actual_notes", "normal_notes"):
+                    c(o["sym"], kk)
+            if k == "tuplet":
+                c(o, "actual")
+                c(o, "normal")
+        if "measure" in fams and k == "measure":
+            c(o, "number")
+        if "ts" in fams and k == "ts":
+            c(o, "beats")
+            c(o, "beat_type")
+        if "ks" in fams and k == "ks":
+            c(o, "fifths")
+        if "clef" in fams and k == "clef":
+            c(o, "line")
+            c(o, "oct")
+        if "fing" in fams and k in GENERIC:
+            c(o, "fing")
+        if "tempo" in fams and k == "tempo":
+            c(o, "bpm")
+        if "ending" in fams and k == "ending":
+            c(o, "number")
+    if "divs" in fams:
+        divs = []
+        for t, q in spec.get("divs", [[0, 1]]):
+            divs.append([T(t), T(q)])
+            cnt[0] += 2
+        spec["divs"] = divs
+        if spec.get("qh") is not None:
+            qh = spec["qh"]
+            spec["qh"] = {"init": T(qh["init"]), "calls": [[cut, T(t), T(q)] for cut, t, q in qh["calls"]]}
+    return spec, cnt[0]
+
+
 def build_part(spec):
     import partitura.score as S
 
-    extra = [o for o in spec["objs"] if o["k"] in ("dynwords", "cdir") or (o["k"] == "fermata" and o.get("bar"))]
+    if spec.get("nf"):
+        # the numbers of the families spec["nf"][1] are handed to the library as numpy scalars (number_form); the
+        # reference values are computed from the spec as it is
+        spec = number_form(spec, spec["nf"][0], spec["nf"][1])[0]
+    extra =[o for o in spec["objs"] if o["k"] in ("dynwords", "cdir") or (o["k"] == "fermata" and o.get("bar"))]
     base = dict(spec, objs=[o for o in spec["objs"] if not any(o is x for x in extra)])
     if spec.get("qh") is not None:
         part = _build_part_phased(base)
@@ -320,7 +410,10 @@ def build_score(spec):
     def rec(x):
         if "group" in x:
             g = x["group"]
-            pg = S.PartGroup(g.get("symbol"), g.get("name"), g.get("number"))
+            number = g.get("number")
+            if x.get("nf") and "group" in x["nf"][1] and isinstance(number, int):
+                number = _np_type(x["nf"][0])(number)
+            pg = S.PartGroup(g.get("symbol"), g.get("name"), number)
             pg.children = [rec(c) for c in x["children"]]
             for c in pg.children:
                 c.parent = pg
